@@ -44,7 +44,7 @@ def join_stmts(nkeys):
 
 def run(rep):
     quick = rep.tier == 'quick'
-    typings = [(['int64'], ['int64']), (['int32'], ['int64']), (['utf8'], ['utf8'])] if quick else \
+    typings = [(['int64'], ['int64']), (['int32'], ['int64']), (['utf8'], ['utf8']), (['date32'], ['date32'])] if quick else \
         [(['int64'], ['int64']), (['int32'], ['int64']), (['utf8'], ['utf8']), (['date32'], ['date32']),
          (['int64', 'utf8'], ['int64', 'utf8']), (['int32', 'int64'], ['int64', 'int64'])]
     maxrows = 2 if quick else 3
